@@ -141,17 +141,38 @@ inline void uneven(wide i)
     spin_us(20 + (h % 40));
 }
 
+static long long g_throwAt = -1;   // index at which the body of `pfor` throws (-1: never)
+
 template <typename T>
 std::string do_pfor(long long n, const std::string &kind)
 {
   Obs obs(n, "");
   bool un = kind == "uneven";
   tasking::parallel_for((T)n, [&](T i) {
+    if (g_throwAt >= 0 && (long long)(wide)i == g_throwAt)
+      throw std::runtime_error("loop body");
     obs.hit((wide)i);
     if (un)
       uneven((wide)i);
   });
   return obs.line();
+}
+
+// a loop whose body throws at index k (same call site, i.e. the same template instantiation, as `pfor`): on the
+// backends that hand a body's exception to the caller (TBB, Debug) it arrives there, and every later loop is an
+// ordinary loop again
+template <typename T>
+std::string do_pforthrow(long long n, long long k)
+{
+  g_throwAt = k;
+  std::string r;
+  try {
+    r = "nothrow " + do_pfor<T>(n, "even");
+  } catch (const std::runtime_error &) {
+    r = "caught";
+  }
+  g_throwAt = -1;
+  return r;
 }
 
 template <typename T>
@@ -584,6 +605,11 @@ std::string step(const std::vector<std::string> &w)
   if (op == "pfor") {
     long long n = vh::to_ll(w[2]);
     C01_DISPATCH(w[1], do_pfor<TT>(n, w[3]));
+    return "bad-type";
+  }
+  if (op == "pforthrow") {
+    long long n = vh::to_ll(w[2]), k = vh::to_ll(w[3]);
+    C01_DISPATCH(w[1], do_pforthrow<TT>(n, k));
     return "bad-type";
   }
   if (op == "sfor") {
